@@ -154,8 +154,10 @@ def run(pid, tier):
     if (nx == 0 or nt == 0) and not vio_out:
         raise V.Infra('vacuous: %d exchanges verified, %d tampered datagrams' % (nx, nt))
     V.write_evidence(pid, tier, 'model_checking', dict(
+        states=sum(r.get('states', 0) for r in results), transitions=sum(r.get('generated', 0) for r in results),
         traces_validated_against_impl=nexec, exchanges_verified_field_by_field=nx, tampered_datagrams=nt, samples=[cases[0][1][:3]], exhaustive=False,
-        rule='sender / recipient ids of 0..7 bytes, id context and master salt present and absent, two master secrets; all seven request methods, nine response codes, '
+        rule='(states / transitions: TLC states of the trace validation runs; Oscore.tla consists of pure operators, there is no closed model) '
+             'sender / recipient ids of 0..7 bytes, id context and master salt present and absent, two master secrets; all seven request methods, nine response codes, '
              '0-7 options out of 15 request-side and 6 response-side ones (class E, class U, Observe, Block2, Size1, No-Response, Echo, Request-Tag, unknown), payload 0..900 bytes; '
              'partial IVs 0 .. 2^40-2 at every encoded length; every (quick: every third) single-bit flip and every truncation of a protected request, a request under another '
              'master secret, then a genuine request'),
